@@ -7,10 +7,12 @@ import (
 	"crypto/ed25519"
 	"encoding/hex"
 	"fmt"
+	"math/big"
 	"strconv"
 	"strings"
 
 	"github.com/bytom/bytom/consensus"
+	"github.com/bytom/bytom/consensus/segwit"
 	"github.com/bytom/bytom/crypto"
 	"github.com/bytom/bytom/crypto/ed25519/chainkd"
 	"github.com/bytom/bytom/errors"
@@ -39,6 +41,17 @@ import (
 // vmutil.P2WSHProgram(Sha256(vmutil.P2SPMultiSigProgram(pks, m))) for 1 <= m <= n <= 6 with real
 // chainkd keys and real signatures over bc.Tx.SigHash; then every single mutation listed in
 // c02mutations is applied to a fresh copy.
+//
+// Signature malleability share: every valid signature R||S of a witness is also offered as its
+// non-canonical twins R||(S+kL) (L = group order; k = 1.. while it fits 256 bits), with each of the
+// three top bits of S set, and with R re-encoded non-canonically (y+p, possible only for y < 19);
+// plus outputs locked to small-order / non-canonically encoded public keys with the degenerate
+// signatures (identity, 0), (identity, L), (non-canonical identity, 0).
+// The Ed25519 oracle table of the op line is computed with the Go STANDARD LIBRARY crypto/ed25519 of
+// the harness module (RFC 8032 strict: S < L), never with the verifier the repository links into
+// protocol/vm; and c02nonCanonical decides canonicity from the bytes alone (S < L, y(R) < p).
+// Oracle `C02:non-canonical-signature-accepted`: ValidateTx accepted a spend of a standard output in
+// which a signature the program consumes is not canonical.
 //
 // Direct oracle (implementation only): unmutated => accepted; any mutation of a signature, a
 // public key, the redeem script or a committed field => rejected; mutations that provably do not
@@ -318,6 +331,101 @@ func c02sigTable(tx *types.Tx, wide bool) string {
 	return strings.Join(parts, ";")
 }
 
+
+// ---- signature canonicity, decided from the bytes (no verifier involved)
+
+var (
+	c02L, _ = new(big.Int).SetString("7237005577332262213973186563042994240857116359379907606001950938285454250989", 10) // 2^252 + 27742317777372353535851937790883648493
+	c02P    = new(big.Int).Sub(new(big.Int).Lsh(big.NewInt(1), 255), big.NewInt(19))
+)
+
+func c02le(b []byte) *big.Int {
+	r := make([]byte, len(b))
+	for i := range b {
+		r[len(b)-1-i] = b[i]
+	}
+	return new(big.Int).SetBytes(r)
+}
+
+func c02toLE32(v *big.Int) []byte {
+	be := v.Bytes()
+	if len(be) > 32 {
+		return nil
+	}
+	out := make([]byte, 32)
+	for i := range be {
+		out[len(be)-1-i] = be[i]
+	}
+	return out
+}
+
+// c02nonCanonical: a 64-byte signature whose S is not reduced (S >= L) or whose R is not the
+// canonical encoding of its y coordinate (y >= p)
+func c02nonCanonical(sig []byte) bool {
+	if len(sig) != 64 {
+		return false
+	}
+	if c02le(sig[32:]).Cmp(c02L) >= 0 {
+		return true
+	}
+	y := append([]byte{}, sig[:32]...)
+	y[31] &= 0x7f
+	return c02le(y).Cmp(c02P) >= 0
+}
+
+// R || (S + k*L), nil when it does not fit 256 bits
+func c02sPlus(sig []byte, k int64) []byte {
+	s := new(big.Int).Add(c02le(sig[32:]), new(big.Int).Mul(big.NewInt(k), c02L))
+	b := c02toLE32(s)
+	if b == nil {
+		return nil
+	}
+	return append(append([]byte{}, sig[:32]...), b...)
+}
+
+// R re-encoded as y+p (same point), nil unless y < 19
+func c02rNonCanon(sig []byte) []byte {
+	y := append([]byte{}, sig[:32]...)
+	sign := y[31] & 0x80
+	y[31] &= 0x7f
+	v := c02le(y)
+	if v.Cmp(big.NewInt(19)) >= 0 {
+		return nil
+	}
+	b := c02toLE32(new(big.Int).Add(v, c02P))
+	b[31] |= sign
+	return append(b, sig[32:]...)
+}
+
+// the signatures the standard program of this input consumes: P2WPKH — the item below the key;
+// P2WSH of TXSIGHASH <keys> m n CHECKMULTISIG — the m items below the script
+func c02consumed(in *types.TxInput) [][]byte {
+	args := in.Arguments()
+	prog := in.ControlProgram()
+	n := len(args)
+	switch {
+	case segwit.IsP2WPKHScript(prog):
+		if n >= 2 {
+			return [][]byte{args[n-2]}
+		}
+	case segwit.IsP2WSHScript(prog):
+		if n == 0 {
+			return nil
+		}
+		insts, err := vm.ParseProgram(args[n-1])
+		if err != nil || len(insts) < 4 || insts[0].Op != vm.OP_TXSIGHASH || insts[len(insts)-1].Op != vm.OP_CHECKMULTISIG {
+			return nil
+		}
+		mi, err := vm.AsBigInt(insts[len(insts)-3].Data)
+		if err != nil || !mi.IsUint64() || mi.Uint64() > uint64(n-1) {
+			return nil
+		}
+		m := int(mi.Uint64())
+		return args[n-1-m : n-1]
+	}
+	return nil
+}
+
 func c02noConverter(prog []byte) ([]byte, error) { return nil, errors.New("no contract converter") }
 
 func c02run(c *Ctx, bv, bh uint64, text string, label string) string {
@@ -360,6 +468,15 @@ func c02run(c *Ctx, bv, bh uint64, text string, label string) string {
 		cls = cls[:i]
 	}
 	c.Count("mutation:" + cls)
+	if verdict == "ok" && tx.Tx != nil {
+		for i, in := range tx.Inputs {
+			for _, sg := range c02consumed(in) {
+				if c02nonCanonical(sg) {
+					c.Fail("C02:non-canonical-signature-accepted", fmt.Sprintf("%s: input %d accepted with the non-canonical signature %x", label, i, sg))
+				}
+			}
+		}
+	}
 	switch {
 	case strings.HasPrefix(label, "A/") && verdict != "ok":
 		c.Fail("C02:valid-spend-rejected", fmt.Sprintf("%s: %s", label, res))
@@ -487,6 +604,38 @@ func c02mutations(c *Ctx, b *c02base) []c02mut {
 		add(fmt.Sprintf("R/sigothermsg.%d", i), func(td *types.TxData) {
 			a := cp(args0)
 			a[i] = lock.keys[lock.signers[i]].xprv.Sign(otherMsg)
+			setArgs(td, a)
+		})
+		// non-canonical twins of signature i (same R, S + k*L; top bits; R as y+p)
+		for k := int64(1); k <= 16; k++ {
+			k := k
+			if c02sPlus(args0[i], k) == nil {
+				break
+			}
+			add(fmt.Sprintf("R/signoncanon.%d.S+%dL", i, k), func(td *types.TxData) {
+				a := cp(args0)
+				a[i] = c02sPlus(args0[i], k)
+				setArgs(td, a)
+			})
+		}
+		for _, bit := range []byte{0x20, 0x40, 0x80} {
+			bit := bit
+			add(fmt.Sprintf("R/signoncanon.%d.topbit%02x", i, bit), func(td *types.TxData) {
+				a := cp(args0)
+				a[i][63] |= bit
+				setArgs(td, a)
+			})
+		}
+		if c02rNonCanon(args0[i]) != nil {
+			add(fmt.Sprintf("R/signoncanon.%d.Rnoncanon", i), func(td *types.TxData) {
+				a := cp(args0)
+				a[i] = c02rNonCanon(args0[i])
+				setArgs(td, a)
+			})
+		}
+		add(fmt.Sprintf("R/signoncanon.%d.Rsign", i), func(td *types.TxData) {
+			a := cp(args0)
+			a[i][31] ^= 0x80
 			setArgs(td, a)
 		})
 		// duplicate signature i: inserted right after itself. The program consumes the TOP nsig
@@ -888,6 +1037,73 @@ func c02wild(c *Ctx) (*types.TxData, string) {
 	return td, name
 }
 
+
+// ---- degenerate keys: small-order points and non-canonical encodings as the committed key
+
+var c02smallKeys = []struct{ name, hex string }{
+	{"identity", "0100000000000000000000000000000000000000000000000000000000000000"},
+	{"identity-noncanon", "eeffffffffffffffffffffffffffffffffffffffffffffffffffffffffffff7f"},
+	{"order2", "ecffffffffffffffffffffffffffffffffffffffffffffffffffffffffffff7f"},
+	{"order4", "0000000000000000000000000000000000000000000000000000000000000000"},
+	{"order4-neg", "0000000000000000000000000000000000000000000000000000000000000080"},
+	{"order4-noncanon", "edffffffffffffffffffffffffffffffffffffffffffffffffffffffffffff7f"},
+	{"order4-noncanon-neg", "edffffffffffffffffffffffffffffffffffffffffffffffffffffffffffffff"},
+	{"order8a", "c7176a703d4dd84fba3c0b760d10670f2a2053fa2c39ccc64ec7fd7792ac037a"},
+	{"order8b", "26e8958fc2b227b045c3f489f2ef98f0d5dfac05d3c63339b13802886d53fc05"},
+}
+
+// outputs locked (P2WPKH and 1-of-1 P2WSH) to the degenerate key number k, spent with degenerate
+// signatures. (identity, 0) satisfies [S]B = R + [h]A whenever [h]A is the identity: whether it is
+// accepted is left to the correspondence (X/); the non-canonical ones (S = L, R = y+p) must be rejected.
+func c02smallOrder(c *Ctx, k int) []struct {
+	td    *types.TxData
+	label string
+} {
+	key := c02smallKeys[k%len(c02smallKeys)]
+	pk, _ := hex.DecodeString(key.hex)
+	idR, _ := hex.DecodeString(c02smallKeys[0].hex)
+	idNC, _ := hex.DecodeString(c02smallKeys[1].hex)
+	zero := make([]byte, 32)
+	sigs := []struct {
+		name string
+		lab  string
+		sig  []byte
+	}{
+		{"id0", "X", append(append([]byte{}, idR...), zero...)},
+		{"idL", "R", append(append([]byte{}, idR...), c02toLE32(c02L)...)},
+		{"idnc0", "R", append(append([]byte{}, idNC...), zero...)},
+	}
+	var out []struct {
+		td    *types.TxData
+		label string
+	}
+	btm := *consensus.BTMAssetID
+	for _, kind := range []string{"pkh", "sh"} {
+		var prog, script []byte
+		if kind == "pkh" {
+			prog = c02must(vmutil.P2WPKHProgram(crypto.Ripemd160(pk)))
+		} else {
+			script = c02must(vmutil.P2SPMultiSigProgram([]ed25519.PublicKey{ed25519.PublicKey(pk)}, 1))
+			prog = c02must(vmutil.P2WSHProgram(crypto.Sha256(script)))
+		}
+		for _, sg := range sigs {
+			td := &types.TxData{Version: 1,
+				Inputs:  []*types.TxInput{types.NewSpendInput(nil, c02hash(c), btm, c02fee+10000, 0, prog, nil)},
+				Outputs: []*types.TxOutput{types.NewOriginalTxOutput(btm, 1000+uint64(c.Rng.Intn(1000)), []byte{byte(vm.OP_TRUE)}, nil)}}
+			if kind == "pkh" {
+				td.Inputs[0].SetArguments([][]byte{sg.sig, pk})
+			} else {
+				td.Inputs[0].SetArguments([][]byte{sg.sig, script})
+			}
+			out = append(out, struct {
+				td    *types.TxData
+				label string
+			}{td, fmt.Sprintf("%s/smallorder.%s.%s.%s", sg.lab, key.name, kind, sg.name)})
+		}
+	}
+	return out
+}
+
 func c02replayLine(c *Ctx, line string) {
 	w := strings.Fields(line)
 	if len(w) < 4 || w[0] != "tx" {
@@ -908,7 +1124,7 @@ func c02replayLine(c *Ctx, line string) {
 }
 
 func runC02(c *Ctx) {
-	c.Rule = "for P2WPKH and P2WSH-of-multisig m-of-n (all 1<=m<=n<=6) with fresh chainkd keys (RootXPrv + non-hardened derivation), a transaction of one of three shapes (single BTM input; asset input + BTM gas input; with a retirement output) is built with the repository's program builders, signed over bc.Tx.SigHash, serialized, decoded with Tx.UnmarshalText and validated with validation.ValidateTx; then every single mutation of c02mutations (signatures, keys, redeem script, witness-only fields, every committed field, orders, added/dropped/duplicated inputs and outputs) is applied to a fresh copy; plus P2WSH of hand-made scripts (m>n, m=0, 0-of-0, short message, short key, repeated key, huge n, low gas) for the correspondence"
+	c.Rule = "for P2WPKH and P2WSH-of-multisig m-of-n (all 1<=m<=n<=6) with fresh chainkd keys (RootXPrv + non-hardened derivation), a transaction of one of three shapes (single BTM input; asset input + BTM gas input; with a retirement output) is built with the repository's program builders, signed over bc.Tx.SigHash, serialized, decoded with Tx.UnmarshalText and validated with validation.ValidateTx; then every single mutation of c02mutations (signatures, keys, redeem script, witness-only fields, every committed field, orders, added/dropped/duplicated inputs and outputs) is applied to a fresh copy; plus P2WSH of hand-made scripts (m>n, m=0, 0-of-0, short message, short key, repeated key, huge n, low gas) for the correspondence; malleability share: every valid signature also as R||(S+kL) for all k that fit 256 bits, with each top bit of S set, R with flipped sign / non-canonical y, and outputs locked to small-order / non-canonically encoded keys spent with (identity,0), (identity,L), (non-canonical identity,0); the Ed25519 oracle table is computed with the standard library verifier of the harness module, canonicity is decided from the bytes"
 	if c.Replay != "" {
 		for _, l := range c.ReplayLines() {
 			c02replayLine(c, l)
@@ -954,7 +1170,7 @@ func runC02(c *Ctx) {
 		muts := c02mutations(c, b)
 		// the quick tier runs every mutation for the first pass over the combos, then a sample
 		for _, m := range muts {
-			if k >= len(combos) && c.Tier == "quick" && c.Rng.Intn(4) != 0 {
+			if k >= len(combos) && c.Tier == "quick" && !strings.Contains(m.label, "signoncanon") && c.Rng.Intn(4) != 0 {
 				continue
 			}
 			td := c02clone(b.td)
@@ -974,6 +1190,9 @@ func runC02(c *Ctx) {
 		for j := 0; j < 3; j++ {
 			td, name := c02wild(c)
 			c02run(c, bv, bh, c02text(td), "X/wild."+name)
+		}
+		for _, so := range c02smallOrder(c, k) {
+			c02run(c, bv, bh, c02text(so.td), so.label)
 		}
 	}
 }
